@@ -19,6 +19,7 @@ from ..tables import enum_paths, region_of
 from .. import cfg
 
 EX = 'ratio::executor::'
+LRA_Q = 'smt::lra_theory::'
 LST = 'ratio::executor_listener::'
 
 
@@ -524,6 +525,70 @@ def r9(ctx, fs, f):
         raise AnalysisBroken('%s: fewer than five bound impositions found (%d)' % (f.id, n_sites))
 
 
+def r10(ctx, fs):
+    """propagate_bounds re-imposes BOTH ends of a stored arithmetic interval: a value frozen as [v, v] must not come back as [v, +inf) after a back-jump."""
+    rid = 'C19.R10'
+    ctx.rule(rid, 'executor::propagate_bounds: on every path that answers true, the stored lower bound of an arithmetic item is handed to lra_theory::set_lb exactly when its stored upper bound is handed to '
+                  'lra_theory::set_ub - same variable, same stored interval, same reason - and at least one such path exists (decided on the calls evaluated along each path, whether they sit in a '
+                  'condition or in a statement)', floor=2)
+    g = fs.fn(EX + 'propagate_bounds')
+    env = LocalEnv(g)
+
+    def calls_of(node):
+        out = []
+        for m in walk(node):
+            cn = m.get('callee_name') or ''
+            if cn in (LRA_Q + 'set_lb', LRA_Q + 'set_ub', LRA_Q + 'set'):
+                out.append(m)
+        return out
+    n_true = n_both = 0
+    any_call = False
+    for p in enum_paths(g.body):
+        lbs, ubs = set(), set()
+        unknown = False
+        for kind, item in p.seq:
+            node = item[1] if kind == 'c' else item
+            if not isinstance(node, dict):
+                continue
+            if kind == 's' and node.get('k') in ('IfStmt', 'ForStmt', 'WhileStmt', 'CXXForRangeStmt', 'SwitchStmt', 'DoStmt', 'CompoundStmt'):
+                continue            # structured statements are represented by their decisions and leaves
+            for m in calls_of(node):
+                any_call = True
+                if kind == 'c' and item[2] is not True and m is node:
+                    continue        # this call failed on the path
+                c = canon(m, env)
+                cn = m['callee_name'].rsplit('::', 1)[-1]
+                if not (isinstance(c, tuple) and len(c) == 6):
+                    unknown = True
+                    continue
+                var, val, why = c[3], c[4], c[5]
+                if cn == 'set':
+                    lbs.add((var, ('both', val), why)); ubs.add((var, ('both', val), why))
+                    continue
+                if not (isinstance(val, tuple) and val[0] == '.' and val[2] in ('lb', 'ub')):
+                    unknown = True
+                    continue
+                if (cn == 'set_lb') != (val[2] == 'lb'):
+                    ctx.finding(rid, g.id, 'crossed', 'executor::propagate_bounds hands the stored %s to %s' % (val[2], cn), node=m)
+                (lbs if cn == 'set_lb' else ubs).add((var, val[1], why))
+        if p.end != 'return' or p.endnode is None or canon((p.endnode.get('c') or [None])[0], env) != 'true':
+            continue
+        if unknown:
+            raise AnalysisBroken('%s: a bound is imposed in a form the rule does not read' % g.id)
+        n_true += 1
+        if lbs or ubs:
+            ok = lbs == ubs
+            n_both += 1 if ok else 0
+            ctx.instance(rid, [g.id, 'true-path', str(n_true)], {'lower': sorted(show(x[1]) for x in lbs), 'upper': sorted(show(x[1]) for x in ubs), 'ok': ok})
+            if not ok:
+                ctx.finding(rid, g.id, 'one-sided', 'executor::propagate_bounds answers true after re-imposing only one end of a stored interval (lower bounds of %s, upper bounds of %s): after a back-jump '
+                            'a value frozen by tick() as [v, v] comes back half-open, so an atom that has started or ended can move and be dispatched again' % (
+                                sorted(show(x[1]) for x in lbs), sorted(show(x[1]) for x in ubs)), loc=g.loc)
+    if not any_call or (n_both == 0 and n_true == 0):
+        raise AnalysisBroken('%s: no lra_theory::set_lb / set_ub / set call found on its paths' % g.id)
+    ctx.instance(rid, [g.id, 'summary'], {'paths_answering_true': n_true, 'paths_imposing_both_ends': n_both})
+
+
 def run(ctx):
     fs = ctx.facts('F')
     f, g = tick_rules(ctx, fs)
@@ -532,6 +597,7 @@ def run(ctx):
     r7(ctx, fs)
     r8(ctx, fs)
     r9(ctx, fs, f)
+    r10(ctx, fs)
     ctx.note(SOLUTION_FOUND_NOTE)
     # planned times are inf_rational values compared with the rational current time (`*pulses.cbegin() <= current_time`): the comparison operators are decided by C15
     ctx.include('C15')
